@@ -30,7 +30,16 @@ def main():
         proof = {'obligations': 0, 'discharged': 0, 'problems': [], 'axioms': [], 'theorems': []}
     else:
         proof = runner.proof_step(a.pid, tier)
-    rule, assume = mod.run(ctx)
+    try:
+        rule, assume = mod.run(ctx)
+    except BaseException as e:      # an exception inside a campaign: the implementation (or the harness on it) misbehaved
+        import traceback
+        tb = traceback.format_exc()
+        rule, assume = getattr(mod, 'RULE', ''), getattr(mod, 'ASSUME', [])
+        ctx.violations.append({'kind': 'harness-exception', 'campaign': 'run', 'signature': 'exception:' + type(e).__name__,
+                               'detail': 'a campaign of %s stopped with %s: %s' % (a.pid, type(e).__name__, str(e)[:300]),
+                               'traceback': tb[-3000:], 'case': None,
+                               'theorem_or_correspondence': 'campaigns of %s could not be completed' % a.pid})
     rc = runner.finish(ctx, proof, rule, assume, getattr(mod, 'EXTRA_COV', None))
     print('%s tier=%s seed=%d evaluations=%d theorems=%d/%d violations=%d wall=%.1fs' % (
         a.pid, tier, seed, ctx.evaluations, proof['discharged'], proof['obligations'], rc, __import__('time').time() - ctx.t0))
